@@ -18,7 +18,7 @@ RULE = (
     "FULL ENUMERATION: files of 1-8 elements x every fault position k (and no fault) x {read, write} x file "
     "families {register, block, section} x {fresh path, path that already holds a longer earlier output, caller buffer (in-memory and a real file object opened by the caller) / content} x storage {text, binary} x exception "
     "types {ValueError, KeyError, TypeError, custom Exception subclasses incl. one derived from StopIteration, one from TypeError and one with a "
-    "non-trivial constructor}, plus nineteen further builtin classes (NotImplementedError and a subclass, OSError, EOFError, AttributeError, ...) on a thinner grid of positions; on writes also elements that keep what they hold in a slot of their own (the inherited data slot stays None); on writes to a caller buffer also a buffer of the OTHER kind than the file's storage (a byte buffer / a file opened 'wb' under text storage, a text buffer / a file opened 'w' under binary storage), where the first element whose own write call is refused by the buffer is the failing element (position and exception recorded inside the harness element), with and without an injected fault; every caller buffer is looked at after the call has returned, the caught exception has been let go and a garbage collection has run, as a caller that goes on using its buffer finds it. The k-th element's read/write raises a specific "
+    "non-trivial constructor}, plus nineteen further builtin classes (NotImplementedError and a subclass, OSError, EOFError, AttributeError, ...) on a thinner grid of positions; on writes also elements that keep what they hold in a slot of their own (the inherited data slot stays None); on writes to a caller buffer also a buffer of the OTHER kind than the file's storage (a byte buffer / a file opened 'wb' under text storage, a text buffer / a file opened 'w' under binary storage), where the first element whose own write call is refused by the buffer is the failing element (position and exception recorded inside the harness element), with and without an injected fault; every caller buffer is looked at after the call has returned, the caught exception has been let go and a garbage collection has run, as a caller that goes on using its buffer finds it; on a thinner grid also files in which ONE element (at or before the failing position), while it is being written / read, itself performs ANOTHER complete File operation of the framework through the public API (a write or a read of a companion file of any family and either storage, to / from a path or a buffer of its own, before or after its own output; at the failing position the fault may be raised from inside that inner operation) — every handle of either operation must be closed, the companion output must be the inner operation's clean prefix, and the outer expectations are the same as without the inner operation. The k-th element's read/write raises a specific "
     "exception instance. Observed with a harness-side wrapper around builtins.open (and around the StringIO/BytesIO "
     "the reading adapter creates): the exception object reaching the caller (identity), the closed flag of every "
     "handle the framework opened, the caller buffer's closed flag / tell() / contents, the file contents on disk "
@@ -177,6 +177,78 @@ def make_family(fam, binary, k, exc_obj, direction, iter_read=False, own_slot=Fa
     return E, F, Data, Dflt
 
 
+def install_nested(E, spec, d, k, exc_obj, direction, log):
+    """element number spec['at'] of the observed file, while it is being written / read, performs another
+    complete File operation of the framework (public API): a write or a read of a companion file of family
+    spec['family'] / storage spec['binary'] with spec['m'] elements, to / from a path or a buffer of its own,
+    before or after its own output. With spec['fault_at'] (only at the failing position) the injected
+    exception is raised by an element of the INNER operation. `log` receives one entry per inner operation
+    performed: a callable that says, after the observed call is over, whether what the inner operation
+    left behind is right (None) or what is wrong with it (a string)."""
+    j, op, fam2, bin2, m = spec["at"], spec["op"], spec["family"], bool(spec["binary"]), spec["m"]
+    ki = spec.get("fault_at")
+    to_path = spec.get("where", "path") == "path"
+    E2, F2, Data2, Dflt2 = make_family(fam2, bin2, ki, exc_obj if ki is not None else None, op)
+    content = (b"" if bin2 else "").join(chunk_of(i, bin2) for i in range(m))
+    want = (b"" if bin2 else "").join(chunk_of(i, bin2) for i in range(m if ki is None else ki))
+    comp = os.path.join(d, "companion.dat")
+    if op == "read" and to_path:
+        with open(comp, "wb") as fh:
+            fh.write(content if bin2 else content.encode("utf-8"))
+
+    def inner():
+        if op == "write":
+            data = Data2(Dflt2(data=b"" if (bin2 and fam2 != "register") else ""))
+            for i in range(m):
+                data.append(E2(data=i))
+            f2 = F2(data=data)
+            if to_path:
+                def verdict():
+                    with open(comp, "rb") as fh:
+                        disk = fh.read()
+                    return None if disk == (want if bin2 else want.encode("utf-8")) else "the companion file is not exactly the inner elements before the failing one"
+                log.append(verdict)
+                f2.write(comp)
+            else:
+                own = io.BytesIO() if bin2 else io.StringIO()
+
+                def verdict():
+                    if own.closed:
+                        return "the buffer handed to the inner write was closed"
+                    if own.tell() != len(want):
+                        return "the buffer handed to the inner write is not positioned at the end of the written data"
+                    return None if own.getvalue() == want else "the inner write's buffer is not exactly the inner elements before the failing one"
+                log.append(verdict)
+                f2.write(own)
+        else:
+            if fam2 == "section":
+                F2.SECTIONS = [E2] * m
+            log.append(lambda: None)
+            F2.read(comp if to_path else content, *((7,) if fam2 == "register" and bin2 else ()))
+
+    before = bool(spec.get("before")) or j == k
+    count = {"n": 0}
+    attr = "write" if direction == "write" else "read"
+    orig = getattr(E, attr)
+
+    def wrapped(self, file, *a, **kw):
+        if direction == "write":
+            i = self.data
+        else:
+            i = count["n"]
+            count["n"] += 1
+        if i != j:
+            return orig(self, file, *a, **kw)
+        if before:
+            inner()
+            return orig(self, file, *a, **kw)
+        r = orig(self, file, *a, **kw)
+        inner()
+        return r
+
+    setattr(E, attr, wrapped)
+
+
 class Recorder:
     """records every object returned by builtins.open and every StringIO/BytesIO the reading adapter creates"""
 
@@ -259,6 +331,9 @@ def run_impl(case):
         expected_prefix = (b"" if binary else "").join(chunk_of(i, binary, ff) for i in range(n if k is None else k))
         raised = None
         out = {"buffer_closed": False, "buffer_at_end": True, "output_is_prefix": True}
+        nested_log = []
+        if case.get("nested"):
+            install_nested(E, case["nested"], d, k, exc_obj, direction, nested_log)
         if direction == "write":
             # (buffer of the other kind: the container starts with the first harness element, so that every
             # element written is one that records what its write call meets)
@@ -336,6 +411,14 @@ def run_impl(case):
         out["handles_seen"] = len(rec.handles)
         if "raised_at" not in out:
             _classify_and_release(raised, exc_obj, k, out)
+        if case.get("nested"):
+            # the inner operation is an operation of the framework like the observed one: what it wrote is
+            # its own clean prefix, a buffer handed to it stays open and positioned at the end
+            out["nested_runs"] = len(nested_log)
+            wrong = [w for w in (v() for v in nested_log) if w]
+            if wrong:
+                out["nested_wrong"] = wrong
+                out["output_is_prefix"] = False
         return out
     except Exception as e:
         return codec.enc_exc(e)
@@ -346,6 +429,15 @@ def run_impl(case):
 def _k_of(case, obs):
     """the failing position: the injected one, or (caller buffer of the other kind) the one the elements recorded"""
     return obs["element_raised_at"] if "element_raised_at" in obs else case["k"]
+
+
+def _nested_text(case):
+    sp = case.get("nested")
+    if not sp:
+        return ""
+    return (f", element {sp['at']} performing a {sp['op']} of a {'binary' if sp['binary'] else 'text'} {sp['family']} file of {sp['m']} elements "
+            f"({'a path' if sp.get('where', 'path') == 'path' else 'a buffer of its own'}) {'before' if sp.get('before') or sp['at'] == case['k'] else 'after'} its own {'output' if case['direction'] == 'write' else 'input'}"
+            + (f", the fault raised by element {sp['fault_at']} of that inner operation" if sp.get("fault_at") is not None else ""))
 
 
 def request(case, obs):
@@ -372,11 +464,15 @@ def judge(case, obs, resp):
             bad.append("caller buffer was closed")
         if not obs["buffer_at_end"]:
             bad.append("caller buffer not positioned at the end of the written data")
-        if not obs["output_is_prefix"]:
+        if obs.get("nested_wrong"):
+            bad.extend(obs["nested_wrong"])
+        elif not obs["output_is_prefix"]:
             bad.append("output is not exactly the elements before the failing one")
-        return {"status": "oracle", "why": f"{case['family']} {case['direction']} {'binary' if case['binary'] else 'text'} {case['where']}{' of the other kind than the storage (' + ('text' if case['binary'] else 'byte') + ' buffer)' if case.get('other_kind') else ''} n={case['n']} k={case['k']}: " + "; ".join(bad) + (" (looked at after the call returned, the exception was let go and a garbage collection ran)" if obs["buffer_closed"] else "")}
+        return {"status": "oracle", "why": f"{case['family']} {case['direction']} {'binary' if case['binary'] else 'text'} {case['where']}{' of the other kind than the storage (' + ('text' if case['binary'] else 'byte') + ' buffer)' if case.get('other_kind') else ''} n={case['n']} k={case['k']}{_nested_text(case)}: " + "; ".join(bad) + (" (looked at after the call returned, the exception was let go and a garbage collection ran)" if obs["buffer_closed"] else "")}
     if case["where"] in ("path", "existingpath") and obs.get("handles_seen", 0) == 0:
         return {"status": "error", "why": "no handle was recorded for a path source/destination (harness wrapper not effective)"}
+    if case.get("nested") and obs.get("nested_runs") != 1:
+        return {"status": "error", "why": f"the inner operation was performed {obs.get('nested_runs')} times instead of once (harness element not effective)"}
     return {"status": "ok", "why": ""}
 
 
@@ -385,7 +481,7 @@ def nontrivial(case):
 
 
 def features(case, obs):
-    return (["other_kind"] if case.get("other_kind") else []) + [f"family={case['family']}", f"direction={case['direction']}", "binary" if case["binary"] else "text", f"where={case['where']}", f"exc={case['exc']}", "fault" if case["k"] is not None else "no_fault", f"n={case['n']}"]
+    return (["other_kind"] if case.get("other_kind") else []) + ([f"nested={case['nested']['op']}"] if case.get("nested") else []) + [f"family={case['family']}", f"direction={case['direction']}", "binary" if case["binary"] else "text", f"where={case['where']}", f"exc={case['exc']}", "fault" if case["k"] is not None else "no_fault", f"n={case['n']}"]
 
 
 def signature(rec):
@@ -436,6 +532,33 @@ def all_cases():
                             yield {"family": fam, "binary": binary, "direction": direction, "where": where, "n": n, "k": k, "exc": exc}
 
 
+def nested_cases():
+    """files in which one element performs another complete File operation while it is written / read;
+    yielded after the plain enumeration; the choices of the inner operation come from a generator of
+    their own, seeded by the case"""
+    import random
+
+    for fam in ("register", "block", "section"):
+        for binary in (False, True):
+            for direction in ("write", "read"):
+                for where in ("path", "buffer") + (("callerfile", "existingpath") if direction == "write" else ()):
+                    for n in (1, 2, 3, 4, 6, 8):
+                        for k in [None] + list(range(n)):
+                            last = n - 1 if k is None else k
+                            for j in sorted({0, last // 2, max(last - 1, 0), last}):
+                                r = random.Random(f"c17-nested/{fam}/{binary}/{direction}/{where}/{n}/{k}/{j}")
+                                exc = r.choice(["ValueError", "KeyError", "Custom", "CustomWithArgs"]) if k is not None else "ValueError"
+                                # the inner operation: mostly of the same direction and to / from a path (both operations own a handle)
+                                op = direction if r.random() < 0.7 else ("read" if direction == "write" else "write")
+                                m = r.choice([1, 2, 3])
+                                sp = {"at": j, "op": op, "family": r.choice(["register", "block", "section"]),
+                                      "binary": binary if r.random() < 0.6 else not binary, "m": m,
+                                      "where": "path" if r.random() < 0.75 else "buffer", "before": r.random() < 0.4}
+                                if j == k and r.random() < 0.5:
+                                    sp["fault_at"] = r.randrange(m)
+                                yield {"family": fam, "binary": binary, "direction": direction, "where": where, "n": n, "k": k, "exc": exc, "nested": sp}
+
+
 def corpus_cases():
     d = Path(__file__).resolve().parent.parent.parent / "corpus" / PROP
     out = []
@@ -454,12 +577,22 @@ def cases_of(chunk):
     if chunk["kind"] == "corpus":
         yield from corpus_cases()
     else:
-        for i, c in enumerate(all_cases()):
+        import itertools
+
+        for i, c in enumerate(itertools.chain(all_cases(), nested_cases())):
             if i % chunk["of"] == chunk["part"]:
                 yield c
 
 
 def shrinks(case):
+    sp = case.get("nested")
+    if sp:
+        # the inner operation stays inside the file: only elements after it are dropped; the inner file gets smaller
+        if sp["m"] > 1 and (sp.get("fault_at") is None or sp["fault_at"] < sp["m"] - 1):
+            yield {**case, "nested": {**sp, "m": sp["m"] - 1}}
+        if case["n"] - 1 > max(sp["at"], -1 if case["k"] is None else case["k"]):
+            yield {**case, "n": case["n"] - 1}
+        return
     if case["n"] > 1 and (case["k"] is None or case["k"] < case["n"] - 1):
         yield {**case, "n": case["n"] - 1}
     if case["k"] not in (None, 0):
